@@ -37,7 +37,8 @@ var grammarLines = []string{
 	"||example.org^$", "||example.org^$,", "||example.org^$domain=", "||example.org^$client=", "||example.org^$dnsrewrite=;", "||a^$replace=/x/y/", "||a^$csp=script-src 'none'",
 	"_$domain=example.org", "-$domain=b.c", "^$ctag=a", "/*$client=1.1.1.1", "~$dnstype=A", "%$denyallow=x.com",
 	"! " + "----------------------------------------------------------------" + "||example.org^",
-	"||example.org^$domain=example.*", "||example.org^$domain=*.example.org", "example.*##.x", "[Adblock Plus 2.0]", "||пример.рф^", "xn--e1afmkfd.xn--p1ai", "||example.org^$popup",
+	"||example.org^$domain=example.*", "||example.org^$domain=*.example.org", "example.*##.x",
+	"*$domain=co.*,script", "||example.org^$denyallow=edu.*", "co.*##.y", "edu.*,~act.edu.*##.z", "/x$domain=uk.*|co.*", "[Adblock Plus 2.0]", "||пример.рф^", "xn--e1afmkfd.xn--p1ai", "||example.org^$popup",
 }
 
 func observeParse(line string, id int) lineEvent {
@@ -63,7 +64,7 @@ func observeParse(line string, id int) lineEvent {
 
 func driveRequests(rnd *rand.Rand) []*rules.Request {
 	var out []*rules.Request
-	urls := []string{"http://example.org/", "https://sub.example.org/ads/banner1.js?x=1", "http://localhost/", "https://example.com/a/b", "ws://x/", "", "http://", "://", "http://[::1]:8080/x", "stun:example.org", strings.Repeat("http://a/", 600)}
+	urls := []string{"http://co.uk/", "https://act.edu.au/x", "http://example.org/", "https://sub.example.org/ads/banner1.js?x=1", "http://localhost/", "https://example.com/a/b", "ws://x/", "", "http://", "://", "http://[::1]:8080/x", "stun:example.org", strings.Repeat("http://a/", 600)}
 	for _, u := range urls {
 		out = append(out, rules.NewRequest(u, urls[rnd.Intn(len(urls))], rules.RequestType(1<<uint(rnd.Intn(12)))))
 	}
@@ -78,7 +79,8 @@ func driveRequests(rnd *rand.Rand) []*rules.Request {
 		q.DNSType = 1
 		out = append(out, q)
 	}
-	for _, h := range []string{"example.org", "sub.example.org", "localhost", "1.2.3.4", "", ".", "a..b", "::1", strings.Repeat("a", 300)} {
+	for _, h := range []string{"example.org", "sub.example.org", "localhost", "1.2.3.4", "", ".", "a..b", "::1", strings.Repeat("a", 300),
+		"co.uk", "act.edu.au", "uk", "github.io", "example.co.uk"} {
 		q := rules.NewRequestForHostname(h)
 		q.ClientName = "Frank's laptop"
 		q.SortedClientTags = []string{"a", "b"}
@@ -118,8 +120,15 @@ func cmdDriveLines(args []string) error {
 			sep = "\n\n"
 		}
 		text := strings.Join(batch, sep)
-		pv := safeCall(func() {
-			st, err := filterlist.NewRuleStorage([]filterlist.RuleList{&filterlist.StringRuleList{ID: 1, RulesText: text}})
+		listID := []int{1, 0, -3}[rnd.Intn(3)]
+		if rnd.Intn(2) == 0 {
+			// the very first line (storage offset 0 of its list) is a rule the requests ask for
+			text = []string{"0.0.0.0 example.org", "||example.org^", "example.org"}[rnd.Intn(3)] + sep + text
+		}
+		// answers of both engines to the whole request universe, as one text
+		answers := func(text string) string {
+			var b strings.Builder
+			st, err := filterlist.NewRuleStorage([]filterlist.RuleList{&filterlist.StringRuleList{ID: listID, RulesText: text}})
 			if err != nil {
 				panic(err)
 			}
@@ -127,15 +136,43 @@ func cmdDriveLines(args []string) error {
 			dns := urlfilter.NewDNSEngine(st)
 			for _, q := range reqs {
 				if q.IsHostnameRequest {
-					res, _ := dns.MatchRequest(&urlfilter.DNSRequest{Hostname: q.Hostname, ClientName: q.ClientName, ClientIP: q.ClientIP, SortedClientTags: q.SortedClientTags, DNSType: q.DNSType})
-					_ = res.DNSRewrites()
+					res, m := dns.MatchRequest(&urlfilter.DNSRequest{Hostname: q.Hostname, ClientName: q.ClientName, ClientIP: q.ClientIP, SortedClientTags: q.SortedClientTags, DNSType: q.DNSType})
+					rw := res.DNSRewrites()
+					fmt.Fprintf(&b, "dns %q: %v net=%v v4=%d v6=%d rw=%v\n", q.Hostname, m, textsOf(res.NetworkRules), len(res.HostRulesV4), len(res.HostRulesV6), textsOf(rw))
 				} else {
 					mr := eng.MatchRequest(q)
-					_ = mr.GetBasicResult()
-					_ = eng.GetCosmeticResult(q.Hostname, mr.GetCosmeticOption())
+					br := mr.GetBasicResult()
+					cr := eng.GetCosmeticResult(q.Hostname, mr.GetCosmeticOption())
+					bt := ""
+					if br != nil {
+						bt = br.RuleText
+					}
+					fmt.Fprintf(&b, "web %q: %s cos=%v|%v\n", q.URL, bt, cr.ElementHiding.Generic, cr.ElementHiding.Specific)
 				}
 			}
-		})
+			return b.String()
+		}
+		var plain string
+		pv := safeCall(func() { plain = answers(text) })
+		if pv == "" {
+			// comments and blank lines are inert: the same list behind two lines of noise answers the same
+			ne := lineEvent{Ev: "noise", Outcome: "ok", Line: []int{}, Trimmed: []int{}, Text: []int{}}
+			var noisy string
+			if pv2 := safeCall(func() { noisy = answers("! a comment in front\n\n" + text) }); pv2 != "" {
+				ne.Outcome, ne.Detail = "panic", pv2
+			} else if noisy != plain {
+				ne.Outcome = "differs"
+				pl, nl := strings.Split(plain, "\n"), strings.Split(noisy, "\n")
+				for k := range pl {
+					if k < len(nl) && pl[k] != nl[k] {
+						ne.Detail = fmt.Sprintf("list id %d: without noise %s / with noise %s | lines: %s", listID, pl[k], nl[k], strings.Join(batch, " ⏎ "))
+						break
+					}
+				}
+			}
+			counts["noise-"+ne.Outcome]++
+			out.write(ne)
+		}
 		if pv != "" {
 			e.Outcome, e.Detail = "panic", pv+" | lines: "+strings.Join(batch, " ⏎ ")
 		}
